@@ -72,6 +72,13 @@ def rules(t):
             r.site(c, "message packed")
             lp = innermost_loop(f, c.bb)
             dom = [a for a in adds if f.dominates(a.bb, c.bb) and (lp is None or a.bb in lp[1])]
+            if not dom:
+                # counted on every path of this iteration (the two arms of `if total + size > S { flush; total = size } else { total += size }` merge
+                # before the push), or counted right after the push, before the next message is looked at
+                in_loop = [a for a in adds if lp is None or a.bb in lp[1]]
+                counted = must_fact(f, gen_points=[(a.bb, a.idx + 1) for a in in_loop], kill_points=[pos(z) for z in resets if not any(z.bb == a.bb and z.idx == a.idx for a in in_loop)])
+                after = in_loop and must_pass(f, pos(c), {pos(a) for a in in_loop}, stops=[(lp[0], 0)] if lp else None)[0]
+                if counted(c.bb, c.idx) or after: continue
             if not dom: r.bad(f"{name}|uncounted", c, "a message is put into the packet under construction on a path where its size was not added to small_messages_bytes: the packet can exceed SLICE_SIZE + one message"); continue
             a = dom[-1]
             avoid = {(p_, lp[0]) for p_ in f.pred[lp[0]]} if lp else set()
